@@ -344,7 +344,7 @@ pub(crate) mod verif_message {
         };
     }
 
-    //@ family c05_diff props=C05,C06 mode=strict mod=message::verif_message
+    //@ family c05_diff props=C05,C06,C08 mode=strict mod=message::verif_message
     //@ harness c05_diff_n0_l4 tier=quick shape="count=0 len=4"
     c05_diff!(c05_diff_n0_l4, 0, 4, 0, 4);
     //@ harness c05_diff_n0_l12 tier=quick shape="count=0 len=12"
